@@ -145,6 +145,10 @@ class Exec:
             name = self.uniq(f"{self.prefix}/{name}")
         else:
             name = f"{self.prefix}/{name}"
+        try:
+            goal = z3.simplify(goal)
+        except z3.Z3Exception:
+            pass
         self.obligations.append(Obligation(name, st.pc, goal, expect, st.trace, info))
 
     def sink_raise(self, st, exc, node=None):
@@ -289,7 +293,7 @@ class Exec:
         base = self.as_container(base, st)
         t = base.t
         if isinstance(t, TDict):
-            idx = coerce(idx, t.k)
+            idx = self.to_key(idx, t.k, st)
             heapops.dict_store(st.heap, base, idx, v)
             yield Outcome("normal", st)
         elif isinstance(t, TList):
@@ -303,6 +307,24 @@ class Exec:
                 yield Outcome("normal", st1)
         else:
             raise Unsupported(f"subscript store on {t} at line {node.lineno}")
+
+    def to_key(self, idx, kt, st):
+        """Convert a value used as a dict key to the dict's key type (objects with value equality,
+        i.e. UnitsContainers, are keyed by their view)."""
+        from .core import TMap
+
+        if isinstance(idx, Val) and compatible(idx.t, kt):
+            return coerce(idx, kt)
+        if isinstance(kt, TMap) and isinstance(idx, Val) and isinstance(idx.t, TRef):
+            for dd in decl.mro_decls(idx.t.cls):
+                if dd.mapping_delegate:
+                    return heapops.dict_as_map(st.heap, heapops.read_field(st.heap, idx, dd.mapping_delegate))
+        if isinstance(kt, TTuple) and isinstance(idx, Val) and isinstance(idx.t, TTuple) and len(kt.items) == len(idx.v):
+            items = tuple(self.to_key(x, t, st) for x, t in zip(idx.v, kt.items))
+            return Val(kt, items)
+        if isinstance(kt, TOpt) and isinstance(idx, Val):
+            return coerce(idx, kt)
+        raise Unsupported(f"dict key of type {getattr(idx, 't', idx)} for key type {kt}")
 
     def as_container(self, base, st):
         """Objects of mapping-delegate classes act as their dict for reads."""
@@ -416,6 +438,25 @@ class Exec:
         for st1, v in self.ev(s.exc, st):
             if isinstance(v, FuncVal) and v.kind == "excclass":
                 v = ExcVal(v.name, [], s)
+            from .core import TExcObj
+
+            if isinstance(v, Val) and isinstance(v.t, TUnion):
+                # raise of a value that may be an exception object: one path per exception alternative
+                for i, alt in enumerate(v.v[1]):
+                    if isinstance(alt.t, TExcObj):
+                        s2 = st1.copy()
+                        s2.assume(v.v[0] == i)
+                        s2.trace.append(f"L{s.lineno}: raise {alt.t.cls}")
+                        if not s2.infeasible():
+                            yield Outcome("raise", s2, ExcVal(alt.t.cls, [], s), s)
+                    else:
+                        s2 = st1.copy()
+                        s2.assume(v.v[0] == i)
+                        if not s2.infeasible():
+                            yield Outcome("raise", s2, ExcVal("TypeError", [], s), s)
+                continue
+            if isinstance(v, Val) and isinstance(v.t, TExcObj):
+                v = ExcVal(v.t.cls, [], s)
             if not isinstance(v, ExcVal):
                 raise Unsupported(f"raise of {v}")
             st1.trace.append(f"L{s.lineno}: raise {v.cls}")
@@ -579,6 +620,12 @@ class Exec:
             return Val(NUMTYPE, z3.IntVal(ops.NUMTYPE_IDS[obj.__name__]))
         if getattr(builtins, getattr(obj, "__name__", ""), None) is obj and obj.__name__ in BUILTIN_FUNCS:
             return FuncVal("builtin", obj.__name__)
+        import collections
+
+        if obj is collections.defaultdict:
+            return FuncVal("builtin", "defaultdict")
+        if isinstance(obj, type) and obj.__name__ == "udict" and obj.__module__ == "pint.util":
+            return FuncVal("builtin", "udict")
         if isinstance(obj, type):
             d = decl.class_of_real(obj)
             if d is not None and not d.exc:
@@ -646,6 +693,12 @@ class Exec:
                             inner = heapops.read_field(st.heap, base, dd.mapping_delegate)
                             yield st, FuncVal("cmethod", attr, recv=inner)
                             return
+            sub, _ = decl.find_field_down(t.cls, attr)
+            if sub is not None:
+                ok = heapops.is_instance_term(st.heap, base.v, sub.short)
+                for st1 in self.guard_exc(st, ok, "AttributeError", node):
+                    yield st1, heapops.read_field(st1.heap, Val(TRef(sub.short), base.v), attr)
+                return
             # property or method
             key = self.find_method(t.cls, attr)
             if key is None:
@@ -744,7 +797,7 @@ class Exec:
                 raise Unsupported(f"subscript on {base.t}")
         t = base.t
         if isinstance(t, TDict):
-            idx = coerce(idx, t.k)
+            idx = self.to_key(idx, t.k, st)
             if t.udict:
                 yield st, heapops.dict_read(st.heap, base, idx)
                 return
@@ -994,10 +1047,11 @@ class Exec:
         if isinstance(container, ViewVal) and container.kind in ("keys",):
             container = container.base
         if isinstance(container.t, TDict):
-            if not compatible(item.t, container.t.k):
+            try:
+                item = self.to_key(item, container.t.k, st)
+            except Unsupported:
                 yield st, z3.BoolVal(False)
                 return
-            item = coerce(item, container.t.k)
         yield st, ops.contains(heapops, st.heap, container, item)
 
     def ev_IfExp(self, node, st):
